@@ -34,15 +34,18 @@ def missing(S, k):
 
 
 def e_unsolved(S, e):
+    """a leaf without a value, or a combination one of whose operands has no value (whatever was cached earlier)"""
     d = S.dd('Expression', e)
     k = fresh('kx', Key)
-    return z3.And(eval_none(S, e), z3.Or(S.fld('Expression', '_is_leaf', e), z3.Exists([k], z3.And(S.has(d, k), missing(S, k)))))
+    leaf = S.fld('Expression', '_is_leaf', e)
+    return z3.Or(z3.And(leaf, eval_none(S, e)), z3.And(z3.Not(leaf), z3.Exists([k], z3.And(S.has(d, k), missing(S, k)))))
 
 
 def p_unsolved(S, p):
     d = S.dd('Point', p)
     k = fresh('kx', Key)
-    return z3.And(pval_none(S, p), z3.Or(S.fld('Point', '_is_leaf', p), z3.Exists([k], z3.And(S.has(d, k), pval_none(S, oid(k))))))
+    leaf = S.fld('Point', '_is_leaf', p)
+    return z3.Or(z3.And(leaf, pval_none(S, p)), z3.And(z3.Not(leaf), z3.Exists([k], z3.And(S.has(d, k), pval_none(S, oid(k))))))
 
 
 def unchanged(L, fields):
@@ -76,8 +79,9 @@ def e_eval_ens(S0, S, a, res):
     d = S0.dd('Expression', s)
     return [
         ('cached', z3.And(z3.Not(eval_none(S, s)), res.t == evalue(S, s)), 'property'),
-        ('stable', z3.Implies(z3.Not(eval_none(S0, s)), res.t == evalue(S0, s)), 'aux'),
-        ('combination', z3.Implies(eval_none(S0, s), res.t == esum(S0.dom(d))), 'ghost'),
+        ('leaf_value', z3.Implies(S0.fld('Expression', '_is_leaf', s), res.t == evalue(S0, s)), 'property'),
+        # the value of a combination is ALWAYS the combination of the current operand values (never a number cached earlier)
+        ('combination', z3.Implies(z3.Not(S0.fld('Expression', '_is_leaf', s)), res.t == esum(S0.dom(d))), 'ghost'),
     ]
 
 
@@ -107,7 +111,7 @@ contract(
     axioms=lambda: [esum(z3.K(Key, False)) == 0],
     raises=[('ValueError', lambda S, a: e_unsolved(S, a['self'].t))],
     ensures=e_eval_ens,
-    modifies=lambda S, a: {n: (lambda r: z3.And(r == a['self'].t, eval_none(S, a['self'].t))) for n in VAL_E},
+    modifies=lambda S, a: {n: (lambda r: z3.And(r == a['self'].t, z3.Not(S.fld('Expression', '_is_leaf', a['self'].t)))) for n in VAL_E},
     loops={1: dict(inv=e_eval_inv, lemmas=e_eval_lemmas, real_vars=['value'], mods=lambda L: {})},
     local_types={'point1': 'Point', 'point2': 'Point'},
 )
@@ -141,8 +145,8 @@ contract(
     raises=[('ValueError', lambda S, a: p_unsolved(S, a['self'].t))],
     ensures=lambda S0, S, a, res: [
         ('cached', z3.And(z3.Not(pval_none(S, a['self'].t)), res.t == pval(S, a['self'].t)), 'property'),
-        ('stable', z3.Implies(z3.Not(pval_none(S0, a['self'].t)), res.t == pval(S0, a['self'].t)), 'aux')],
-    modifies=lambda S, a: {n: (lambda r: z3.And(r == a['self'].t, pval_none(S, a['self'].t))) for n in VAL_P},
+        ('leaf_value', z3.Implies(S0.fld('Point', '_is_leaf', a['self'].t), res.t == pval(S0, a['self'].t)), 'property')],
+    modifies=lambda S, a: {n: (lambda r: z3.And(r == a['self'].t, z3.Not(S.fld('Point', '_is_leaf', a['self'].t)))) for n in VAL_P},
     loops={1: dict(inv=p_eval_inv, vec_vars=['value'], mods=lambda L: {})},
     local_types={'point': 'Point'},
 )
@@ -152,15 +156,14 @@ contract(
     CP + 'eval', [('self', CT)], returns=TReal,
     requires=lambda S, a: [('wf', z3.And(wf_expr(S, S.fld('Constraint', 'expression', a['self'].t)), pair_dims(S, S.fld('Constraint', 'expression', a['self'].t))))],
     axioms=lambda: [esum(z3.K(Key, False)) == 0],
-    raises=[('ValueError', lambda S, a: z3.And(S.fld_none('Constraint', '_value', a['self'].t),
-                                                e_unsolved(S, S.fld('Constraint', 'expression', a['self'].t))))],
+    raises=[('ValueError', lambda S, a: e_unsolved(S, S.fld('Constraint', 'expression', a['self'].t)))],
     ensures=lambda S0, S, a, res: [
         ('cached', z3.And(z3.Not(S.fld_none('Constraint', '_value', a['self'].t)), res.t == S.fld('Constraint', '_value', a['self'].t)), 'property'),
-        ('is_expression_value', z3.Implies(S0.fld_none('Constraint', '_value', a['self'].t),
-                                           res.t == evalue(S, S0.fld('Constraint', 'expression', a['self'].t))), 'property')],
+        ('is_expression_value', res.t == evalue(S, S0.fld('Constraint', 'expression', a['self'].t)), 'property')],
     modifies=lambda S, a: dict(
         {n: (lambda r: r == a['self'].t) for n in ['f:Constraint._value', 'f:Constraint._value?none']},
-        **{n: (lambda r: r == S.fld('Constraint', 'expression', a['self'].t)) for n in VAL_E}),
+        **{n: (lambda r: z3.And(r == S.fld('Constraint', 'expression', a['self'].t),
+                                z3.Not(S.fld('Expression', '_is_leaf', S.fld('Constraint', 'expression', a['self'].t))))) for n in VAL_E}),
 )
 
 contract(
